@@ -3,7 +3,7 @@ use std::io;
 use bytes::{Buf, BytesMut};
 use zeroize::Zeroizing;
 
-use super::{aead_setup_rfc9580, ChunkSize, InvalidSessionKeySnafu};
+use super::{aead_setup_rfc9580, ChunkSize, InvalidSessionKeySnafu, UnsupporedAlgorithmSnafu};
 use crate::{
     crypto::{
         aead::{AeadAlgorithm, Error},
@@ -44,6 +44,10 @@ impl<R: io::Read> StreamEncryptor<R> {
                 session_key_size: session_key.len(),
             }
             .build());
+        }
+
+        if aead.tag_size().is_none() {
+            return Err(UnsupporedAlgorithmSnafu { alg: aead }.build());
         }
 
         let (info, message_key, nonce) =
